@@ -468,7 +468,11 @@ func runScenario(r *ev.Run, s Scenario) {
 	var detChecked, steps, points, leaked int64
 	maxTrace, maxThreads := 0, 0
 	var samples []string
+	counters := map[string]int64{}
 	for _, st := range results {
+		for k, v := range st.Counters {
+			counters[k] += v
+		}
 		if st.HarnessError != "" {
 			ev.HarnessError("scenario %s: %s", s.Name, st.HarnessError)
 		}
@@ -527,6 +531,9 @@ func runScenario(r *ev.Run, s Scenario) {
 		"max_threads":                   maxThreads,
 		"workers":                       len(results),
 		"leaked_executions":             leaked,
+	}
+	for k, v := range counters {
+		sub.Extra[k] = v
 	}
 	for _, sm := range samples {
 		if len(sm) > 600 {
